@@ -258,4 +258,5 @@ def hash(string):
     fun_id='https://github.com/morph-kgc/morph-kgc/function/built-in.ttl#hash_iri',
     string='http://users.ugent.be/~bjdmeest/function/grel.ttl#valueParam')
 def hash_iri(string):
+    from hashlib import sha256
     return f'http://example.com/ns#{sha256(string.encode("UTF-8")).hexdigest()}'
